@@ -120,7 +120,7 @@ Definition fspec_ok (c : fcase) : bool :=
 (* ---- rechunk helper cases (K2) ---- *)
 From Flox Require Import Rechunk.
 Definition blockwise_case_ok (c : list Z * list Z * list Z) : bool :=
-  let '(chunks, labels, impl) := c in list_z_eqb (optimal_chunks chunks labels) impl.
+  let '(chunks, labels, impl) := c in list_z_eqb (optimal_chunks_missing chunks labels) impl.
 Definition cohorts_case_ok (c : list Z * list Z * Z * bool * list Z * list Z) : bool :=
   let '(force, oldchunks, chunksize, ign, labels, impl) := c in
   list_z_eqb (cohort_chunks force oldchunks chunksize ign labels) impl.
